@@ -10,6 +10,9 @@ func propC10(c *Ctx, r *Report) {
 	r.rule("E1/errflow/rows-iteration", 4, "rows.Next() iteration must be followed by a handled rows.Err()")
 	eff := computeEffects(c)
 	runErrflow(c, eff, r, c.RSync, "E1/errflow", true)
+	// state that survives a rollback
+	r.rule("C10/state-across-rollback", 1, "block processing reads no in-memory state that a rolled-back attempt could have changed")
+	ruleNoCarriedReads(c, newSharedAnalysis(c), r, "C10/state-across-rollback", c.RSync, carriedAllowedAverages, "block processing")
 	// recovered panics: a panic raised by a fault and recovered on the sync path lets the same process retry
 	// with whatever in-memory state deferred functions left behind
 	r.rule("C10/recover-sites", 1, "recover() on the sync path is limited to audited sites")
